@@ -848,7 +848,13 @@ var vfC09LimitsH = []uint32{
 
 var vfC09Clients = []string{"192.0.2.1", "192.0.2.2", "198.51.100.7", "2001:db8::1", "cid-a", "laptop"}
 
-var vfC09Domains = []string{"a.test", "b.test", "ads.example", "cdn.example.com", "www.example.org", "x1.co.uk"}
+// vfC09Domains are the names asked for; among them names that are valid on
+// the wire though no registrable domain: an address literal, a numeric last
+// label, single labels with an underscore or a hyphen at the edge.
+var vfC09Domains = []string{
+	"a.test", "b.test", "ads.example", "cdn.example.com", "www.example.org", "x1.co.uk",
+	"192.168.1.1", "backup.2024", "_gateway", "printer_2", "host-.lan-", "xn--e1afmkfd.xn--p1ai",
+}
 
 var vfC09Upstreams = []string{"192.0.2.53:53", "tls://dns.example", "https://dns.example/dns-query"}
 
